@@ -21,7 +21,7 @@ import (
 )
 
 var (
-	flagMode    = flag.String("mode", "search", "search|queue")
+	flagMode    = flag.String("mode", "queue", "queue|search|gencheck")
 	flagExplore = flag.Bool("explore", false, "print a table of failure keys to stderr")
 	flagMaxSize = flag.Int("maxsize", 0, "max corpus file size in bytes (0 = tier default)")
 	flagBudget  = flag.Duration("budget", 0, "wall-clock budget of the search (0 = tier default)")
@@ -123,6 +123,13 @@ func failureKey(v verdict, j job, s *source, src []byte, off int) string {
 			d = d[:60]
 		}
 		return "format-" + v.what + ":" + d
+	}
+	for _, c := range append(append([]string{}, v.lost...), v.extra...) {
+		// the scanner skips the byte after `#`, so an empty `#` comment swallows the next
+		// line ("#\nfoo" is ONE comment): scanner defect, keyed separately
+		if c == "#" || strings.HasPrefix(c, "#\n") {
+			return "scanner-hash-empty"
+		}
 	}
 	if off < 0 {
 		return v.what + ":" + j.style
@@ -264,8 +271,16 @@ func replay(line string, o *vh.Out) {
 		if len(fs) < 4 {
 			return
 		}
-		all := allSources(1<<30, 0, 0)
 		bidx, _ := strconv.Atoi(fs[3])
+		var all []*source
+		if strings.HasPrefix(fs[1], "gen:") {
+			p := strings.Split(fs[1], ":")
+			seed, _ := strconv.ParseUint(p[1], 10, 64)
+			i, _ := strconv.Atoi(p[2])
+			all = []*source{genSource(seed, i)}
+		} else {
+			all = allSources(1<<30, 0, 0)
+		}
 		for _, s := range all {
 			if s.id == fs[1] {
 				r := runJob(job{s: s, style: fs[2], bidx: bidx})
@@ -273,6 +288,10 @@ func replay(line string, o *vh.Out) {
 					o.Oracle(f[0], f[1], f[2])
 				}
 				o.Case(r.caseLine, r.impl, r.nontriv)
+				if src, _, ok := variant(s, fs[2], bidx); ok {
+					out := runFormat(s, src, fmtTimeout)
+					fmt.Printf("INPUT:\n%s\nOUTPUT:\n%s\n", src, out.out)
+				}
 				fmt.Println(r.impl)
 				return
 			}
@@ -290,16 +309,19 @@ func allSources(maxSize int, seed uint64, ngen int) []*source {
 	res := savedCorpus()
 	res = append(res, corpusFiles(root, maxSize)...)
 	res = append(res, embeddedSources(root, embedDirs, maxSize)...)
-	r := vh.NewRand(seed)
 	for i := 0; i < ngen; i++ {
-		p, class := genProgram(r.Fork(i))
-		fname := "gen.xgo"
-		if class {
-			fname = "gen.gox"
-		}
-		res = append(res, &source{id: fmt.Sprintf("gen:%d:%d", seed, i), fname: fname, class: class, src: []byte(p)})
+		res = append(res, genSource(seed, i))
 	}
 	return res
+}
+
+func genSource(seed uint64, i int) *source {
+	p, class := genProgram(vh.NewRand(seed).Fork(i))
+	fname := "gen.xgo"
+	if class {
+		fname = "gen.gox"
+	}
+	return &source{id: fmt.Sprintf("gen:%d:%d", seed, i), fname: fname, class: class, src: []byte(p)}
 }
 
 func search(f *vh.Flags, o *vh.Out) {
@@ -422,10 +444,28 @@ func main() {
 		return
 	}
 	switch *flagMode {
-	case "queue":
-		queueCases(f, o)
-	default:
+	case "search":
 		search(f, o)
+	case "gencheck":
+		bad := map[string]int{}
+		for i := 0; i < f.N; i++ {
+			s := genSource(f.Seed, i)
+			if _, _, err := parseFile(s, s.src); err != nil {
+				m := err.Error()
+				if k := strings.Index(m, ": "); k >= 0 {
+					m = m[k+2:]
+				}
+				bad[m]++
+				if bad[m] == 1 {
+					fmt.Printf("---- %s\n%s\n", err, s.src)
+				}
+			}
+		}
+		for m, n := range bad {
+			fmt.Printf("%5d %s\n", n, m)
+		}
+	default:
+		queueCases(f, o)
 	}
 	if *flagExplore {
 		explore(f.Out)
